@@ -641,7 +641,7 @@ func (a *fxAnalysis) analyse(fn *ssa.Function) *fxSummary {
 					}
 				case *ssa.UnOp:
 					// x := *p  (whole-struct load): reads every field
-					if x.Op == token.MUL && a.isTargetPtr(x.X.Type()) {
+					if x.Op == token.MUL && a.isTargetPtr(x.X.Type()) && !id.local[x] {
 						s.mayRead |= a.all
 						ri |= a.all &^ da
 					}
@@ -653,8 +653,8 @@ func (a *fxAnalysis) analyse(fn *ssa.Function) *fxSummary {
 						s.mayWrite |= w
 						s.unbalanced |= w
 						if !isZeroStruct(x.Val) {
-							s.nonzeroStore |= w
-							s.unpairedNonzero |= w
+							s.nonzeroStore |= w &^ id.zero[x]
+							s.unpairedNonzero |= w &^ id.zero[x]
 						}
 						da |= w
 						continue
@@ -812,12 +812,15 @@ func (a *fxAnalysis) analyse(fn *ssa.Function) *fxSummary {
 // segment L..S is the identity on f: none of the stores counts for f (skip), f is not "assigned" by them, and a load
 // all of whose uses are such stores is not a read of the incoming value (load).
 type identInfo struct {
-	skip map[*ssa.Store]fset
-	load map[*ssa.UnOp]bool
+	skip  map[*ssa.Store]fset
+	load  map[*ssa.UnOp]bool
+	zero  map[*ssa.Store]fset // whole-struct stores: the fields known to receive the zero value (fieldfx_lit.go)
+	local map[*ssa.UnOp]bool  // whole-struct loads of a struct literal under construction: no instance is read
 }
 
 func (a *fxAnalysis) identityStores(fn *ssa.Function) identInfo {
-	id := identInfo{skip: map[*ssa.Store]fset{}, load: map[*ssa.UnOp]bool{}}
+	id := identInfo{skip: map[*ssa.Store]fset{}, load: map[*ssa.UnOp]bool{}, zero: map[*ssa.Store]fset{}, local: map[*ssa.UnOp]bool{}}
+	a.litIdentity(fn, &id) // struct literals built in a local / returned by a helper and stored into the instance
 	strip := func(v ssa.Value) ssa.Value {
 		for {
 			ct, ok := v.(*ssa.ChangeType)
